@@ -543,17 +543,28 @@ func ruleTLSUse(c *Ctx) {
 	// Serve: the tls config built there reaches GRPCServer.TLS and the net/rpc wrap
 	if sv := p.Fn("Serve"); sv != nil {
 		info := sv.Pkg.TypesInfo
-		var cfgV *types.Var
-		ast.Inspect(sv.Body, func(x ast.Node) bool {
-			if as, ok := x.(*ast.AssignStmt); ok && len(as.Lhs) == 1 {
-				if u, ok := ast.Unparen(as.Rhs[0]).(*ast.UnaryExpr); ok && u.Op == token.AND {
-					if cl, ok := u.X.(*ast.CompositeLit); ok && isTLSConfigType(info.TypeOf(cl)) {
-						cfgV, _ = identObj(info, as.Lhs[0]).(*types.Var)
+		// the variable(s) holding the AutoMTLS config: bound to the literal, or copies of such a variable
+		cfgVars := map[types.Object]bool{}
+		for round := 0; round < 3; round++ {
+			ast.Inspect(sv.Body, func(x ast.Node) bool {
+				as, ok := x.(*ast.AssignStmt)
+				if !ok || len(as.Lhs) != len(as.Rhs) {
+					return true
+				}
+				for i, l := range as.Lhs {
+					r := ast.Unparen(as.Rhs[i])
+					if u, ok := r.(*ast.UnaryExpr); ok && u.Op == token.AND {
+						if cl, ok := u.X.(*ast.CompositeLit); ok && isTLSConfigType(info.TypeOf(cl)) {
+							cfgVars[identObj(info, l)] = true
+						}
+					}
+					if o := identObj(info, r); o != nil && cfgVars[o] {
+						cfgVars[identObj(info, l)] = true
 					}
 				}
-			}
-			return true
-		})
+				return true
+			})
+		}
 		ok := false
 		ast.Inspect(sv.Body, func(x ast.Node) bool {
 			cl, isCl := x.(*ast.CompositeLit)
@@ -565,7 +576,7 @@ func ruleTLSUse(c *Ctx) {
 			}
 			for _, el := range cl.Elts {
 				if kv, isKv := el.(*ast.KeyValueExpr); isKv {
-					if k, isK := kv.Key.(*ast.Ident); isK && k.Name == "TLS" && cfgV != nil && identObj(info, kv.Value) == cfgV {
+					if k, isK := kv.Key.(*ast.Ident); isK && k.Name == "TLS" && cfgVars[identObj(info, kv.Value)] {
 						ok = true
 					}
 				}
